@@ -63,8 +63,10 @@ def o1(W, ob):
                 v = ' | '.join(vals)
 
         def diff(x):
-            return ('saturating_sub' in x or ' Sub ' in x or 'sub(' in x) and 'disconnect_timeout' in x and 'disconnect_notify_start' in x and \
-                x.index('disconnect_timeout') < x.index('disconnect_notify_start')
+            # exactly the difference (as_millis and copies are transparent in keys); any other function of it -- subsec_millis, as_secs, a division -- is not
+            import re
+            return re.match(r'^(?:\w+::)*(?:saturating_sub|sub)\(self\.disconnect_timeout, self\.disconnect_notify_start\)$', x) is not None or \
+                x == '(self.disconnect_timeout Sub self.disconnect_notify_start)'
 
         def zero(x):
             return 'ZERO' in x or x in ('0',) or 'from_millis(0)' in x or 'from_secs(0)' in x or 'default(' in x.lower()
@@ -233,6 +235,8 @@ from . import helpers, wiring
 
 from . import initial
 
+from . import mustcall
+
 OBLIGATIONS = [
     ('C07.O1', 'timeout guards', 'NetworkInterrupted under last_recv_time + disconnect_notify_start < now, Disconnected under '
      'last_recv_time + disconnect_timeout < now, both while Running; last_recv_time written only by handle_message.', o1),
@@ -248,4 +252,5 @@ OBLIGATIONS = [
     ('C07.H', 'helpers the rules above rely on', 'the bodies of the helpers named by this property\'s rules compute what the rules assume (endpoint_getters, protocol_state_tests); see rules/helpers.py', helpers.bundle('endpoint_getters', 'protocol_state_tests', 'from_inputs')),
     ('C07.W', 'configuration wiring', 'at every call site that passes a field read `x.B` for a parameter `A` the callee has no same-typed parameter `B`; in every struct literal no parameter `B` is stored in field `A` while a same-typed parameter `A` / field `B` exists (builder -> constructor -> endpoint fields: timeouts, window, fps are not crossed); see rules/wiring.py', wiring.rule),
     ('C07.I', 'initial state', 'every constructor gives the fields this property\'s rules interpret (NULL_FRAME = none / nothing yet, 0 = first frame, latches open, typestate start) the value listed in tables/initial_state.json; every field compared with NULL_FRAME anywhere is listed; see rules/initial.py', initial.rule_for('C07')),
+    ('C07.M', 'must-call floor', 'the calls listed for this property in tables/must_call.json are made on every path from the entry of their function to a normal return (interprocedural must-call): a new early return, fast path or extra condition in front of one of them is reported; see rules/mustcall.py', mustcall.rule_for('C07')),
 ]
